@@ -431,6 +431,11 @@ class _Linalg:
     def norm(x, *a, **k):
         if not has_sym(x):
             return _np.linalg.norm(concretize(x), *a, **k)
+        axis = k.pop('axis', None)
+        if axis is not None and not a and not k:
+            arr = _np.asarray(x, dtype=object)
+            sq = (arr * arr).sum(axis=axis)
+            return _np_sqrt(sq)
         if a or k:
             unsupported("linalg.norm with options on symbolic input")
         tot = 0
@@ -773,6 +778,8 @@ def patched(extra=()):
                     new = NP
                 elif val is _warnings:
                     new = WARN
+                elif val is _warnings.warn:
+                    new = WARN.warn
                 elif val is _np.linalg:
                     new = NP.linalg
                 elif val is _np.random:
